@@ -1,5 +1,6 @@
 import Spine.Lock
 import Spine.Race
+import Spine.RaceRW
 /-!
 # Bridge between the regenerated lock tables (G8) and the abstract theorems (C17)
 
@@ -15,6 +16,8 @@ Hand-written, independent of `Spine.Generated.*` (must build whatever the tables
 * `guarded_trace_ordered` — in a trace respecting mutual exclusion, any two accesses to `x` by
   different threads, anywhere in the trace, are separated by `rel t₁ m … acq t₂ m`, i.e. ordered by
   happens-before (program order, release→acquire edge of the Go memory model, program order).
+* `GuardedRW`, `guardedRW_trace_ordered` — the same over the reader/writer trace model of
+  `Spine.RaceRW` (writes under the exclusive hold, reads under any hold; conflicting pairs only).
 -/
 namespace Spine.LockTables
 open Spine
@@ -113,5 +116,48 @@ theorem guarded_trace_ordered (m x t1 t2 : Nat) (w1 w2 : Bool) (hne : t1 ≠ t2)
   have h1 : Race.owner earlier m = some t1 :=
     (show (x = x → Race.owner earlier m = some t1) ∧ _ from hg1).1 rfl
   exact Race.guarded_accesses_ordered m x t1 t2 w1 w2 hne earlier mid hwf2 h1 h2
+
+/-! ## guarded-by with reader/writer locks -/
+
+/-- every access to `x` in the trace is protected by `m`: a write under the exclusive hold, a read
+    under some hold (what a guarded-by row with a common `sync.RWMutex` claims) -/
+def GuardedRW (m x : Nat) : List RaceRW.Ev → Prop
+  | [] => True
+  | .acc t y w :: past => (y = x → RaceRW.Protected past m t w) ∧ GuardedRW m x past
+  | .acq .. :: past => GuardedRW m x past
+  | .rel .. :: past => GuardedRW m x past
+  | .racq .. :: past => GuardedRW m x past
+  | .rrel .. :: past => GuardedRW m x past
+
+theorem GuardedRW_tail {m x : Nat} {e : RaceRW.Ev} {l : List RaceRW.Ev} (h : GuardedRW m x (e :: l)) :
+    GuardedRW m x l := by
+  cases e <;> simp [GuardedRW] at h <;> first | exact h.2 | exact h
+
+theorem GuardedRW_suffix {m x : Nat} :
+    ∀ (l1 l2 : List RaceRW.Ev), GuardedRW m x (l1 ++ l2) → GuardedRW m x l2
+  | [], _, h => h
+  | _ :: l1, l2, h => GuardedRW_suffix l1 l2 (GuardedRW_tail h)
+
+theorem WFRW_suffix : ∀ (l1 l2 : List RaceRW.Ev), RaceRW.WF (l1 ++ l2) → RaceRW.WF l2
+  | [], _, h => h
+  | _ :: l1, l2, h => WFRW_suffix l1 l2 (RaceRW.WF_tail h)
+
+/-- In a trace that respects reader/writer exclusion and in which every access to `x` is protected
+    by `m`, any two accesses to `x` by different threads of which at least one is a write are
+    separated by a release of `m` by the earlier thread and a later acquisition by the later one. -/
+theorem guardedRW_trace_ordered (m x t1 t2 : Nat) (w1 w2 : Bool) (hne : t1 ≠ t2)
+    (hconf : w1 = true ∨ w2 = true) (later mid earlier : List RaceRW.Ev)
+    (hwf : RaceRW.WF (later ++ RaceRW.Ev.acc t2 x w2 :: (mid ++ RaceRW.Ev.acc t1 x w1 :: earlier)))
+    (hg : GuardedRW m x (later ++ RaceRW.Ev.acc t2 x w2 :: (mid ++ RaceRW.Ev.acc t1 x w1 :: earlier))) :
+    ∃ mid2 e2 mid1 e1 mid0, mid = mid2 ++ e2 :: (mid1 ++ e1 :: mid0) ∧
+      RaceRW.IsAcq e2 t2 m ∧ RaceRW.IsRel e1 t1 m := by
+  have hwf2 := WFRW_suffix later _ hwf
+  have hg2 := GuardedRW_suffix later _ hg
+  have h2 : RaceRW.Protected (mid ++ RaceRW.Ev.acc t1 x w1 :: earlier) m t2 w2 :=
+    (show (x = x → RaceRW.Protected (mid ++ RaceRW.Ev.acc t1 x w1 :: earlier) m t2 w2) ∧ _ from hg2).1 rfl
+  have hg1 := GuardedRW_suffix mid _ (GuardedRW_tail hg2)
+  have h1 : RaceRW.Protected earlier m t1 w1 :=
+    (show (x = x → RaceRW.Protected earlier m t1 w1) ∧ _ from hg1).1 rfl
+  exact RaceRW.rw_guarded_accesses_ordered m x t1 t2 w1 w2 hne hconf earlier mid hwf2 h1 h2
 
 end Spine.LockTables
